@@ -874,3 +874,203 @@ pub fn ser_kern(subtables: &T) -> Vec<u8> {
     }
     out
 }
+
+// ---------------------------------------------------------------------------------------------------
+// FeatureVariations (GSUB / GPOS header version 1.1), used by c04: a structured description of the table,
+// its byte serialiser, and the header that points at it.  The case format carries the BYTES (the model in
+// coq/Model/FeatureVariations.v reads bytes), so these types exist only on the generator side.
+
+/// one condition table of a condition set
+#[derive(Clone, Debug)]
+pub enum FvCond {
+    /// format 1: axis index, filterRangeMinValue, filterRangeMaxValue (F2Dot14 raw values)
+    Range { axis: i64, min: i64, max: i64 },
+    /// a condition table of a format this reader does not know (8 bytes, like format 1)
+    UnknownFormat(i64),
+    /// the offset points beyond the end of the data
+    Dangling,
+}
+
+#[derive(Clone, Debug)]
+pub enum FvCondSet {
+    /// conditionSetOffset = 0
+    Universal,
+    Set(Vec<FvCond>),
+    /// the offset points beyond the end of the data
+    Dangling,
+    /// the same table as an earlier record's (offset reuse); falls back to Universal
+    SameAs(usize),
+}
+
+#[derive(Clone, Debug)]
+pub enum FvAlt {
+    /// alternate feature table: lookup indices
+    Table(Vec<i64>),
+    Dangling,
+}
+
+#[derive(Clone, Debug)]
+pub enum FvSubst {
+    /// featureTableSubstitutionOffset = 0
+    Null,
+    /// major version, minor version, (feature index, alternate feature table) in the order given
+    Table { major: i64, minor: i64, recs: Vec<(i64, FvAlt)> },
+    Dangling,
+    /// the same table as an earlier record's; falls back to Null
+    SameAs(usize),
+}
+
+#[derive(Clone, Debug)]
+pub struct FvRecord {
+    pub cond: FvCondSet,
+    pub subst: FvSubst,
+}
+
+const FV_DANGLING: u32 = 0x00FF_FF00;
+
+fn be16(v: &mut Vec<u8>, x: i64) {
+    v.extend_from_slice(&(x as u16).to_be_bytes());
+}
+fn be32(v: &mut Vec<u8>, x: u32) {
+    v.extend_from_slice(&x.to_be_bytes());
+}
+
+fn ser_fv_cond_set(conds: &[FvCond]) -> Vec<u8> {
+    let mut t = vec![];
+    be16(&mut t, conds.len() as i64);
+    let first = 2 + 4 * conds.len();
+    let mut k = 0;
+    for c in conds {
+        match c {
+            FvCond::Dangling => be32(&mut t, FV_DANGLING),
+            _ => {
+                be32(&mut t, (first + 8 * k) as u32);
+                k += 1;
+            }
+        }
+    }
+    for c in conds {
+        match c {
+            FvCond::Range { axis, min, max } => {
+                be16(&mut t, 1);
+                be16(&mut t, *axis);
+                be16(&mut t, *min);
+                be16(&mut t, *max);
+            }
+            FvCond::UnknownFormat(f) => {
+                be16(&mut t, *f);
+                be16(&mut t, 0);
+                be16(&mut t, 0xC000);
+                be16(&mut t, 0x4000);
+            }
+            FvCond::Dangling => {}
+        }
+    }
+    t
+}
+
+fn ser_fv_subst(major: i64, minor: i64, recs: &[(i64, FvAlt)]) -> Vec<u8> {
+    let mut t = vec![];
+    be16(&mut t, major);
+    be16(&mut t, minor);
+    be16(&mut t, recs.len() as i64);
+    let mut at = 6 + 6 * recs.len();
+    let mut tail = vec![];
+    for (fi, alt) in recs {
+        be16(&mut t, *fi);
+        match alt {
+            FvAlt::Table(li) => {
+                be32(&mut t, at as u32);
+                let mut f = vec![];
+                be16(&mut f, 0);
+                be16(&mut f, li.len() as i64);
+                for l in li {
+                    be16(&mut f, *l);
+                }
+                at += f.len();
+                tail.extend(f);
+            }
+            FvAlt::Dangling => be32(&mut t, FV_DANGLING),
+        }
+    }
+    t.extend(tail);
+    t
+}
+
+/// FeatureVariations table: majorVersion, minorVersion, featureVariationRecordCount (`recs.len() + count_bias`),
+/// the records, then the condition set and feature table substitution tables in record order
+pub fn ser_feature_variations(major: i64, minor: i64, recs: &[FvRecord], count_bias: i64) -> Vec<u8> {
+    let mut head = vec![];
+    be16(&mut head, major);
+    be16(&mut head, minor);
+    be32(&mut head, (recs.len() as i64 + count_bias).max(0) as u32);
+    let mut at = 8 + 8 * recs.len();
+    let mut tail: Vec<u8> = vec![];
+    let mut cond_at: Vec<u32> = vec![];
+    let mut subst_at: Vec<u32> = vec![];
+    for r in recs {
+        let c = match &r.cond {
+            FvCondSet::Universal => 0,
+            FvCondSet::Dangling => FV_DANGLING,
+            FvCondSet::SameAs(k) => cond_at.get(*k).copied().unwrap_or(0),
+            FvCondSet::Set(conds) => {
+                let t = ser_fv_cond_set(conds);
+                let o = at as u32;
+                at += t.len();
+                tail.extend(t);
+                o
+            }
+        };
+        let s = match &r.subst {
+            FvSubst::Null => 0,
+            FvSubst::Dangling => FV_DANGLING,
+            FvSubst::SameAs(k) => subst_at.get(*k).copied().unwrap_or(0),
+            FvSubst::Table { major, minor, recs } => {
+                let t = ser_fv_subst(*major, *minor, recs);
+                let o = at as u32;
+                at += t.len();
+                tail.extend(t);
+                o
+            }
+        };
+        cond_at.push(c);
+        subst_at.push(s);
+        be32(&mut head, c);
+        be32(&mut head, s);
+    }
+    head.extend(tail);
+    head
+}
+
+/// GSUB / GPOS header 1.`minor`.  With `minor > 0` the 32-bit featureVariationsOffset follows the three list
+/// offsets and `fv` is appended after everything else (also after the two padding bytes), so that the scope of
+/// the FeatureVariations table is exactly `fv`.  `off_kind`: 0 = the offset of `fv`, 1 = NULL,
+/// k >= 2 = (k - 2) bytes beyond the end of the table.  With `minor == 0` the header is the 1.0 header of
+/// `ser_layout_table` and `fv` is not written.
+pub fn ser_layout_table_v(
+    scripts: Option<Vec<u8>>,
+    features: Option<Vec<u8>>,
+    lookups: Option<Vec<u8>>,
+    minor: i64,
+    off_kind: i64,
+    fv: &[u8],
+) -> Vec<u8> {
+    let mut o = Obj::new();
+    o.u16(1).u16(minor).off16(scripts).off16(features).off16(lookups);
+    if minor > 0 {
+        o.u32(0);
+    }
+    let mut v = o.finish();
+    v.extend_from_slice(&[0, 0]);
+    if minor > 0 {
+        let pos = v.len();
+        let off = match off_kind {
+            0 => pos,
+            1 => 0,
+            k => pos + fv.len() + (k as usize - 2),
+        };
+        v[10..14].copy_from_slice(&(off as u32).to_be_bytes());
+        v.extend_from_slice(fv);
+    }
+    v
+}
